@@ -3,6 +3,7 @@
 package verifsim
 
 import (
+	"bytes"
 	"context"
 	"errors"
 	"fmt"
@@ -123,6 +124,9 @@ func (d *SimDisk) Write(ctx context.Context, key string, body []byte, o *storage
 	}
 	if d.Frozen {
 		return nil
+	}
+	if old, ok := d.data[key]; ok && bytes.Equal(old, body) {
+		return nil // rewriting identical content changes nothing a crash could expose
 	}
 	cp := append([]byte(nil), body...)
 	d.data[key] = cp
